@@ -1132,3 +1132,279 @@ func RDistinct(c *core.Ctx) {
 		c.Anchor("class pairs in knownDistinctSets")
 	}
 }
+
+// ---------------------------------------------------------------------------
+// R-NOMATCHEXIT: the attempt loop gives up only when the scan position has
+// run out of text.  Every `return nil, nil` of scan stands under a branch that
+// reads the scan position (against the stop position, the end of the text or
+// the minimum required length).  A shortcut that answers "no further match"
+// from facts about the pattern alone (a leading \z or $ "can match only
+// once") is wrong as soon as the fact has a second position — `$` matches
+// before a final newline and at the very end.
+// ---------------------------------------------------------------------------
+
+func readsField(v ssa.Value, f *types.Var, depth int) bool {
+	if v == nil || depth > 4 {
+		return false
+	}
+	switch x := v.(type) {
+	case *ssa.UnOp:
+		if x.Op == token.MUL && core.FieldVarOfAddr(x.X) == f {
+			return true
+		}
+		return readsField(x.X, f, depth+1)
+	case *ssa.BinOp:
+		return readsField(x.X, f, depth+1) || readsField(x.Y, f, depth+1)
+	case *ssa.Convert:
+		return readsField(x.X, f, depth+1)
+	case *ssa.Phi:
+		for _, e := range x.Edges {
+			if readsField(e, f, depth+1) {
+				return true
+			}
+		}
+	}
+	return false
+}
+
+func RNoMatchExit(c *core.Ctx) {
+	c.Rule("R-NOMATCHEXIT", "every `return nil, nil` (no match, no error) of (*Runner).scan is dominated by a branch whose condition reads the scan position Runtextpos: the search is abandoned because the position ran out of text, never because of facts about the pattern alone", 3)
+	p := c.P
+	scan := p.SSAFunc(p.LookupFunc("", "Runner.scan"))
+	pos := p.LookupField("", "Runner", "Runtextpos")
+	if scan == nil || pos == nil {
+		c.Anchor("regexp2.(*Runner).scan / Runner.Runtextpos")
+		return
+	}
+	name := core.SSAName(scan)
+	c.Visit(name)
+	n := 0
+	for _, b := range scan.Blocks {
+		ret, ok := b.Instrs[len(b.Instrs)-1].(*ssa.Return)
+		if !ok || len(ret.Results) != 2 || !core.IsNilConst(ret.Results[0]) || !core.IsNilConst(ret.Results[1]) {
+			continue
+		}
+		n++
+		byPos := false
+		for _, f := range core.FactsAtBlock(b) {
+			if readsField(f.Cond, pos, 0) {
+				byPos = true
+			}
+		}
+		c.Check(byPos, fmt.Sprintf("%s / 'no match' exit #%d is decided by the scan position", name, n), ret.Pos(), "none of the branch conditions this return stands under reads Runtextpos: the scan is given up without the position having run out of text")
+	}
+	if n == 0 {
+		c.Anchor("`return nil, nil` in scan")
+	}
+}
+
+// ---------------------------------------------------------------------------
+// R-VALIDFLAG: a field that is only meaningful when a companion flag is set
+// is read only under that flag.  matchText.input is the caller's string for
+// string entry points and EMPTY for rune-slice entry points
+// (hasStringInput == false): len(t.input) read without the flag answers 0 for
+// every rune-slice match.
+// ---------------------------------------------------------------------------
+
+var validFlagTable = []struct{ pkg, typ, field, flag, why string }{
+	{"", "matchText", "input", "hasStringInput", "the original string exists only for string entry points; rune-slice entry points leave it empty"},
+}
+
+func RValidFlag(c *core.Ctx) {
+	c.Rule("R-VALIDFLAG", "a field that is meaningful only when its companion flag is set (matchText.input / hasStringInput) is read only where that flag is known to be true for the same object: under a dominating test of the flag, or in a conjunction after it", 1)
+	p := c.P
+	n := 0
+	for _, ent := range validFlagTable {
+		field := p.LookupField(ent.pkg, ent.typ, ent.field)
+		flag := p.LookupField(ent.pkg, ent.typ, ent.flag)
+		if field == nil || flag == nil {
+			c.Anchor(ent.typ + "." + ent.field + " / " + ent.typ + "." + ent.flag)
+			continue
+		}
+		pk := p.Pkg(ent.pkg)
+		info := pk.TypesInfo
+		for _, fd := range p.FuncDecls(pk) {
+			if fd.Body == nil || p.IsTestFile(fd.Pos()) {
+				continue
+			}
+			name := core.DeclName(pk, fd)
+			// writes: left sides of assignments
+			lhs := map[ast.Expr]bool{}
+			ast.Inspect(fd.Body, func(x ast.Node) bool {
+				if as, ok := x.(*ast.AssignStmt); ok {
+					for _, l := range as.Lhs {
+						lhs[ast.Unparen(l)] = true
+					}
+				}
+				return true
+			})
+			var g *core.Graph
+			ord := 0
+			ast.Inspect(fd.Body, func(x ast.Node) bool {
+				sel, ok := x.(*ast.SelectorExpr)
+				if !ok || core.FieldOf(info, sel) != field || lhs[sel] {
+					return true
+				}
+				recv := types.ExprString(sel.X)
+				if g == nil {
+					g = core.NewGraph(info, fd.Body)
+				}
+				ord++
+				n++
+				c.Visit(name)
+				guarded := false
+				isFlagOf := func(e ast.Expr) bool {
+					fs, ok := ast.Unparen(e).(*ast.SelectorExpr)
+					return ok && core.FieldOf(info, fs) == flag && types.ExprString(fs.X) == recv
+				}
+				check := func(at ast.Node) {
+					b, _ := g.BlockOf(at)
+					if b == nil {
+						return
+					}
+					for _, f := range g.FactsAt(b) {
+						for _, cj := range conjunctsOrNegDisjuncts(f) {
+							if cj.val && isFlagOf(cj.e) {
+								guarded = true
+							}
+						}
+					}
+				}
+				check(sel)
+				if !guarded {
+					if st := enclosingStmt(fd.Body, sel); st != nil {
+						check(st)
+						// `flag && … field …` inside one condition
+						ast.Inspect(st, func(y ast.Node) bool {
+							be, ok := y.(*ast.BinaryExpr)
+							if !ok || be.Op != token.LAND || !(be.Y.Pos() <= sel.Pos() && sel.End() <= be.Y.End()) {
+								return true
+							}
+							for _, cj := range conjuncts(be.X) {
+								if isFlagOf(cj) {
+									guarded = true
+								}
+							}
+							return true
+						})
+					}
+				}
+				c.Check(guarded, fmt.Sprintf("%s / read #%d of %s.%s is under %s", name, ord, ent.typ, ent.field, ent.flag), sel.Pos(), "%s is read without knowing that %s.%s is true: %s", types.ExprString(sel), recv, ent.flag, ent.why)
+				return true
+			})
+		}
+	}
+	if n == 0 {
+		c.Anchor("reads of flag-guarded fields")
+	}
+}
+
+// ---------------------------------------------------------------------------
+// R-REFDEPTH: balancing groups leave REFERENCES in a group's capture list: a
+// negative entry -3-t stands for "the capture in slot t".  The readers
+// (matchIndex, matchLength, isMatched) follow exactly one such step, so a
+// writer must never store a reference to a slot that holds a reference
+// itself: wherever addMatch is given the encoding `-3 - t`, that call stands
+// on the negative side of a test `…matches[c][t] < 0` (the positive side
+// copies the existing reference instead).
+// ---------------------------------------------------------------------------
+
+func RRefDepth(c *core.Ctx) {
+	c.Rule("R-REFDEPTH", "the readers of a group's capture list resolve one level of reference (-3-t → slot t); every addMatch that stores such a reference to slot t is on the false side of a test that slot t is itself a reference (matches[c][t] < 0), so references never chain", 1)
+	p := c.P
+	root := p.Pkg("")
+	info := root.TypesInfo
+	addMatch := p.LookupFunc("", "Match.addMatch")
+	matches := p.LookupField("", "Match", "matches")
+	mi, _ := p.DeclOf(p.LookupFunc("", "Match.matchIndex"))
+	if addMatch == nil || matches == nil || mi == nil {
+		c.Anchor("Match.addMatch / Match.matches / Match.matchIndex")
+		return
+	}
+	// the decoding constant K of `-K - i` in the reader
+	var decodeK int64 = -1
+	oneLevel := true
+	nIdx := 0
+	ast.Inspect(mi.Body, func(x ast.Node) bool {
+		if be, ok := x.(*ast.BinaryExpr); ok && be.Op == token.SUB {
+			if k, ok := core.ConstInt(info, be.X); ok && k < 0 {
+				decodeK = -k
+			}
+		}
+		if rs, ok := x.(*ast.ReturnStmt); ok && len(rs.Results) == 1 {
+			// a return of matches[..][-K-i] : one step; a loop would be several
+			ast.Inspect(rs.Results[0], func(y ast.Node) bool {
+				if _, ok := y.(*ast.IndexExpr); ok {
+					nIdx++
+				}
+				return true
+			})
+		}
+		if _, ok := x.(*ast.ForStmt); ok {
+			oneLevel = false
+		}
+		return true
+	})
+	if decodeK < 0 {
+		c.Anchor("the reference decoding `-K - i` in Match.matchIndex")
+		return
+	}
+	if !oneLevel {
+		c.OK("Match.matchIndex / resolves references in a loop", mi.Pos(), "chains are followed: the writers need no depth discipline")
+		return
+	}
+	n := 0
+	for _, fd := range p.FuncDecls(root) {
+		if fd.Body == nil || p.IsTestFile(fd.Pos()) {
+			continue
+		}
+		name := core.DeclName(root, fd)
+		var g *core.Graph
+		for _, call := range core.CallsIn(info, fd.Body, addMatch) {
+			if len(call.Args) < 2 {
+				continue
+			}
+			be, ok := ast.Unparen(call.Args[1]).(*ast.BinaryExpr)
+			if !ok || be.Op != token.SUB {
+				continue
+			}
+			if k, ok := core.ConstInt(info, be.X); !ok || -k != decodeK {
+				continue
+			}
+			slot := types.ExprString(ast.Unparen(be.Y))
+			n++
+			c.Visit(name)
+			if g == nil {
+				g = core.NewGraph(info, fd.Body)
+			}
+			guarded := false
+			if b, _ := g.BlockOf(call); b != nil {
+				for _, f := range g.FactsAt(b) {
+					if f.Value {
+						continue
+					}
+					for _, cj := range conjuncts(f.Cond) {
+						cmp, ok := ast.Unparen(cj).(*ast.BinaryExpr)
+						if !ok || cmp.Op != token.LSS {
+							continue
+						}
+						if k, ok := core.ConstInt(info, cmp.Y); !ok || k != 0 {
+							continue
+						}
+						ie, ok := ast.Unparen(cmp.X).(*ast.IndexExpr)
+						if !ok || types.ExprString(ast.Unparen(ie.Index)) != slot {
+							continue
+						}
+						if inner, ok := ast.Unparen(ie.X).(*ast.IndexExpr); ok && core.FieldOf(info, inner.X) == matches {
+							guarded = true
+						}
+					}
+				}
+			}
+			c.Check(guarded, fmt.Sprintf("%s / reference to slot %s stored by addMatch #%d is not a reference to a reference", name, slot, n), call.Pos(), "`%s` is stored without being on the false side of `matches[c][%s] < 0`: when that slot holds a reference itself, matchIndex / matchLength (one step of resolution) read the inner marker as a text position", types.ExprString(call.Args[1]), slot)
+		}
+	}
+	if n == 0 {
+		c.Anchor("addMatch calls that store a reference (-K - slot)")
+	}
+}
